@@ -4,7 +4,7 @@ use core::marker::PhantomData;
 
 use crate::{Field, PrimeField};
 
-use digest::{FixedOutputReset, XofReader};
+use digest::{crypto_common::BlockSizeUser, FixedOutputReset, XofReader};
 use expander::Expander;
 
 use self::expander::ExpanderXmd;
@@ -44,8 +44,8 @@ pub struct DefaultFieldHasher<H: FixedOutputReset + Default + Clone, const SEC_P
     len_per_base_elem: usize,
 }
 
-impl<F: Field, H: FixedOutputReset + Default + Clone, const SEC_PARAM: usize> HashToField<F>
-    for DefaultFieldHasher<H, SEC_PARAM>
+impl<F: Field, H: FixedOutputReset + BlockSizeUser + Default + Clone, const SEC_PARAM: usize>
+    HashToField<F> for DefaultFieldHasher<H, SEC_PARAM>
 {
     fn new(dst: &[u8]) -> Self {
         // The final output of `hash_to_field` will be an array of field
@@ -55,7 +55,8 @@ impl<F: Field, H: FixedOutputReset + Default + Clone, const SEC_PARAM: usize> Ha
         let expander = ExpanderXmd {
             hasher: PhantomData,
             dst: dst.to_vec(),
-            block_size: len_per_base_elem,
+            // `Z_pad` of expand_message_xmd is one input block of the hash function (RFC 9380, 5.3.1)
+            block_size: H::block_size(),
         };
 
         DefaultFieldHasher {
